@@ -21,6 +21,12 @@ type failProto struct {
 	run  func(env *SymEnv, tag string) (errs map[sharing.ID]error, outputs map[sharing.ID]bool, setupErr error)
 	role string
 	ids  []sharing.ID
+	// rawOnly: the case parameter k selects the k-th RAW byte read (io.ReadFull on the source: choice
+	// bits, commitment witnesses, …) instead of the k-th consumption of any kind (for protocols with
+	// thousands of element draws)
+	rawOnly  bool
+	maxK     int
+	thorough bool
 }
 
 func c07FailingSource(env *SymEnv, p failProto, victim sharing.ID, k int) {
@@ -32,8 +38,31 @@ func c07FailingSource(env *SymEnv, p failProto, victim sharing.ID, k int) {
 		env.Reach("honest run did not complete (measure-zero path)")
 		return
 	}
-	n := env.R.Reader(fmt.Sprintf("%s/%s%d", tag0, p.role, victim)).Calls()
+	name0 := fmt.Sprintf("%s/%s%d", tag0, p.role, victim)
+	n := env.R.Reader(name0).Calls()
 	env.Check("C07.d/the party consumes its source at all", n > 0, fmt.Sprintf("party %d never reads its source", victim))
+	if p.rawOnly {
+		// map "k-th raw read" to its consumption index through the monitor log of the honest run
+		idx, raw := 0, -1
+		found := false
+		for _, ev := range env.R.ReadEvents() {
+			if ev.Reader != name0 {
+				continue
+			}
+			if ev.Kind == "bytes" {
+				raw++
+				if raw == k {
+					k, found = idx, true
+					break
+				}
+			}
+			idx++
+		}
+		if !found {
+			env.Reach("no such read")
+			return
+		}
+	}
 	if k >= n {
 		env.Reach("no such read")
 		return
@@ -67,7 +96,32 @@ func failProtocols() []failProto {
 		}
 		return m
 	}
+	dkls := func(soft bool) func(env *SymEnv, tag string) (map[sharing.ID]error, map[sharing.ID]bool, error) {
+		return func(env *SymEnv, tag string) (map[sharing.ID]error, map[sharing.ID]bool, error) {
+			env.R.SetGenericNonIdentity(true)
+			pol := thresholdPolicy(2, idPools[1][:3])
+			q := sortedIDs(pol.IDs)[:2]
+			var res *dklsResult
+			var err error
+			if soft {
+				res, err = runDkls23Soft(env, tag, pol, q, []byte("m"))
+			} else {
+				res, err = runDkls23(env, tag, pol, q, []byte("m"), nil)
+			}
+			if err != nil {
+				return nil, nil, err
+			}
+			outs := map[sharing.ID]bool{}
+			for id := range res.PSigs {
+				outs[id] = true
+			}
+			return res.Errs, outs, nil
+		}
+	}
+	dq := sortedIDs(thresholdPolicy(2, idPools[1][:3]).IDs)[:2]
 	return []failProto{
+		{Name: "dkls23-softspoken", role: "cosigner", ids: dq, run: dkls(true), rawOnly: true, maxK: 8},
+		{Name: "dkls23-bbot", role: "cosigner", ids: dq, run: dkls(false), rawOnly: true, maxK: 8, thorough: true},
 		{Name: "gennaro", role: "party", ids: t23.IDs, run: func(env *SymEnv, tag string) (map[sharing.ID]error, map[sharing.ID]bool, error) {
 			res, err := runGennaro[sG, sF](env, tag, as, t23.IDs, nil)
 			if err != nil {
@@ -128,6 +182,13 @@ func c07FailingSourceCases(tier string) []Case {
 	maxK := 24
 	for _, fp := range failProtocols() {
 		p := fp
+		if p.thorough && tier != "thorough" {
+			continue
+		}
+		maxK := maxK
+		if p.maxK > 0 {
+			maxK = p.maxK
+		}
 		victims := p.ids[:1]
 		if tier == "thorough" {
 			victims = p.ids
